@@ -6,6 +6,7 @@ package main
 // matcher), membership for ties among wildcards, stability over repetitions.
 
 import (
+	"encoding/json"
 	"fmt"
 	"strconv"
 	"strings"
@@ -245,11 +246,38 @@ func c18Record(c c18Case, nw int, kind string) {
 	}
 }
 
+// c18Regress: saved (table, host) cases, judged by the same reference lookup.
+func c18Regress(c regressCase) string {
+	if c.S("kind") != "lookup" {
+		return "skip: kind " + c.S("kind")
+	}
+	var cs c18Case
+	b, _ := json.Marshal(c.F)
+	if err := json.Unmarshal(b, &cs); err != nil || len(cs.Table) == 0 {
+		return "skip: table unreadable"
+	}
+	for _, build := range []func([]c18Entry) (*PreConfigRoute, string){c18Build, c18BuildConfig} {
+		pcr, msg := build(cs.Table)
+		if msg != "" {
+			return msg
+		}
+		// other hosts first: the answer must not depend on what was looked up before
+		for _, h := range c.Strings("lookups_before") {
+			pcr.FindRoute(h)
+		}
+		if msg, _, _ := c18CheckOn(pcr, cs, 200, nil); msg != "" {
+			return msg
+		}
+	}
+	return ""
+}
+
 func TestC18(t *testing.T) {
 	V.Rule("unit: route tables (exhaustive: all ordered tables of <=3 entries and all/sampled 4-entry tables over 11 patterns x 11 hosts (names and IPv4 literals); random: 5-30 generated entries, hosts derived from patterns by substitution and near-miss edits) looked up 50x (3x when at most one wildcard matches) on a fresh table built entry by entry, and as interleaved lookup histories (all hosts forward/backward/forward; random other hosts in between) on one table object built the way main builds it (the table written as a YAML route section - consecutive entries with equal protocol and next hop as one item with several dests - and loaded through loadConfigFromReader / createPreConfigRoute); non-trivial = >=2 wildcards match, or literal and wildcard both match, or a dotted look-alike; distinct by (table, host)")
 	V.Assume("patterns and hosts use host-name characters and '*' only")
 	V.Require("interleaved lookups on one table", "table built from configuration with a multi-dest route item", "rule:literal", "rule:wildcard", "rule:default", "rule:none", "ties:>=2 wildcards match", "literal and wildcard both match", "dotted look-alike")
 
+	V.Regress(t, c18Regress)
 	t.Run("exhaustive", func(t *testing.T) {
 		protos := []string{"udp", "tcp", "tls", "TLS"}
 		n := len(c18Patterns)
